@@ -28,7 +28,7 @@ action try_handler {
     fbreak;
   }
   if pp != 0 {
-    if p + pp - 1 >= pe {
+    if pp - 1 >= pe - p {
       err = errPOutOfRange
       fbreak;
     }
